@@ -497,7 +497,8 @@ def c14(ctx):
                         "a connection holding a channel subscription and a matching pattern is served once per subscription"]
     rule = ("operation paths exported by TLC from PubSub.tla (one per distinct subscription state with <= %d operations over 3 connections on 2 members, "
             "channels {a,ab,b}, patterns {a*,*}, including disconnects and re-connects; plus every path of length <= %d) each followed by PUBLISH on every channel and PUBSUB CHANNELS/NUMSUB/NUMPAT; "
-            "seeded random programs with duplicate subscriptions, unsubscribe-all and disconnects; rounds with two concurrent publishers; a sample of the same programs "
+            "seeded random programs with duplicate subscriptions, unsubscribe-all and disconnects; rounds with two concurrent publishers; stall rounds (the schedule of "
+            "PubSubImpl_unlocked.cfg's counterexample: a subscriber that stops reading keeps a publication under way while another subscriber unsubscribes); a sample of the same programs "
             "through the Go client API (PubSub of an embedded and of a cluster client: Subscribe, PSubscribe, Publish, PubSubChannels, PubSubNumSub, PubSubNumPat); "
             "non-trivial = some publish had >= 1 delivery while >= 1 live subscription did not match") % ((4, 2) if quick else (5, 3))
     ra = vlib.design_check(ctx, "PubSubMC", "PubSub.cfg", consts={"MaxOps": 4 if quick else 5, "Export": "TRUE"}, name="design-states")
@@ -510,6 +511,10 @@ def c14(ctx):
     finally:
         os.remove(os.path.join(vlib.SPEC, ".PubSub_paths.cfg"))
     behs |= set(vlib.behaviours(rb))
+    # one member's service at the grain of its lock: PUBLISH writes to the receivers while it holds the read lock, (UN)SUBSCRIBE
+    # change the tree under the write lock; writing after the lock was released must violate NoMessageAfterAck (S-C14-5)
+    vlib.design_check(ctx, "PubSubImpl", "PubSubImpl.cfg", name="pubsub-impl")
+    vlib.design_expect_violation(ctx, "PubSubImpl", "PubSubImpl_unlocked.cfg", "NoMessageAfterAck", "seeded change S-C14-5 (writes after the lock was released)", name="pubsub-impl-unlocked")
     out = ctx.dir("drv")
     behfile = os.path.join(out, "beh.jsonl")
     open(behfile, "w").write("\n".join(sorted(behs)) + "\n")
